@@ -417,6 +417,7 @@ def run(tier: str) -> Check:
     repo, rep = fill(check, tier)
     # ---- semantic rules (the passes evaluated on the program model): these decide
     before = len(check.findings)
+    deferred_before = len(getattr(check, "deferred", []))  # (what the operator analysis above could not read is not theirs)
     o11_skip_search(check, repo, rep)
     o12_squash_semantics(check, repo, tier)
     o14_inline_semantics(check, repo)
@@ -424,7 +425,7 @@ def run(tier: str) -> Check:
     o16_skip_pass(check, repo)
     o7b_unroll_concrete(check, repo)
     o9_skip_rule(check, repo)  # parse_trivia evaluated on scripted scenarios: semantic
-    sem_ok = len(check.findings) == before and not getattr(check, "deferred", [])
+    sem_ok = len(check.findings) == before and len(getattr(check, "deferred", [])) == deferred_before
     o10_truthy(check, repo, rep)
     check.second_opinion(lambda c: o2_order(c, repo, tier), "O12 on the program model", sem_ok)
     # ---- structural readings of the same passes (contradiction / registration / purity / shape rules): second
